@@ -72,7 +72,11 @@ class ConstBuilder(exprgen.Builder):
             name, v = d(st.sampled_from([("EA", 0), ("EB", 5), ("EC", -3), ("ED", 2147483647)]))
             return exprgen.Node(name, v, cm.INT)
         what = d(st.sampled_from([("sizeof(long)", 8), ("sizeof(struct sz)", 24), ("_Alignof(double)", 8), ("sizeof(char[3][5])", 15),
-                                  ("__builtin_offsetof(struct sz, c)", 16), ("sizeof(int *)", 8), ("_Alignof(struct sz)", 8), ("sizeof 1", 4), ("sizeof 1ll", 8)]))
+                                  ("__builtin_offsetof(struct sz, c)", 16), ("sizeof(int *)", 8), ("_Alignof(struct sz)", 8), ("sizeof 1", 4), ("sizeof 1ll", 8),
+                                  # member designators with several subscripts in a row (every one of them counts)
+                                  ("__builtin_offsetof(struct sm, m[2][3])", 24), ("__builtin_offsetof(struct sm, m[1])", 10), ("__builtin_offsetof(struct sm, in[1].k[1][2])", 76),
+                                  ("__builtin_offsetof(struct sm, t[1][0][1])", 128), ("__builtin_offsetof(struct sm, in[1].z)", 80), ("__builtin_offsetof(struct sm, m[2][0])", 18),
+                                  ("sizeof(struct sm)", 152), ("__builtin_offsetof(struct sm, t[EA + 1][1][EB - 5])", 136)]))
         return exprgen.Node(what[0], what[1], cm.ULONG)
 
     def int_spelling(self, v, t):
@@ -170,6 +174,7 @@ def literal_type(text):
 
 
 PRE = ("enum en0 { EA, EB = 5, EC = -3, ED = 2147483647 };\nstruct sz { char a; long b; char c; };\n"
+       "struct sm { char a; short m[3][4]; struct { int k[2][3]; char z; } in[2]; long t[2][2][2]; };\n"
        "int gobj; int garr[10]; struct sz gs; static long gsl[4];\n")
 
 
